@@ -402,10 +402,9 @@ class ColorVisuals(Visuals):
         """
         kwargs = {}
         if self.defined:
-            if self.face_colors is not None:
+            if self.kind == "face":
                 kwargs.update(face_colors=self.face_colors[face_index])
-
-            if self.vertex_colors is not None:
+            else:
                 indices = np.unique(self.mesh.faces[face_index].flatten())
                 vertex_colors = self.vertex_colors[indices]
                 kwargs.update(vertex_colors=vertex_colors)
